@@ -283,6 +283,13 @@ def gen_case(rnd, kind):
         prog = apm.Program([apm.SrcFile(f.name, left_stmts)], aux, {}, base.charset)
         right = apm.Program([apm.SrcFile(f.name, right_stmts)], aux, {}, base.charset)
         if rnd.random() < 0.3:
+            # the guarded file is ALSO one of the linked files, ahead of the file that includes it: being linked is its first time
+            prog = apm.Program([apm.SrcFile("once7.mac", inc_body), apm.SrcFile(f.name, left_stmts)], aux, {}, base.charset)
+            rs = list(f.stmts)
+            rs[p2:p2] = [apm.simple(".even"), apm.simple(".even")]
+            rs[p1:p1] = [apm.simple(".even"), apm.simple(".even")]
+            right = apm.Program([apm.SrcFile("once7.mac", inc_body), apm.SrcFile(f.name, rs)], {}, {}, base.charset)
+        elif rnd.random() < 0.3:
             # guarded files that include each other (or themselves): the inclusion met while the file is still being compiled is not the first
             w = [apm.data(".word", apm.num(rnd.randrange(0x10000))) for _ in range(6)]
             aux_l = dict(aux)
